@@ -36,9 +36,13 @@ func c10Run(w *W) {
 		[]string{"self", "close", "parent-cancel"}[term], termAt, nStart, nWait, nClose)
 	w.State(fmt.Sprintf("run=%s shut=%s clean=%s term=%d", poNames[runOut], poNames[shutOut], poNames[cleanOut], term))
 
-	errRun := errors.New("run-error")
-	errShut := errors.New("shutdown-error")
-	errClean := errors.New("cleanup-error")
+	// (drawn after the configuration cell; most errors are plain, some wrap a
+	// sentinel the library treats specially elsewhere)
+	eRun, fRun := newFlavErr("run-error")
+	eShut, fShut := newFlavErr("shutdown-error")
+	eClean, fClean := newFlavErr("cleanup-error")
+	var errRun, errShut, errClean error = eRun, eShut, eClean
+	w.Out.Config += fmt.Sprintf(" errs=%s/%s/%s", fRun, fShut, fClean)
 	pctx, pcancel := context.WithCancel(w.Ctx)
 	defer pcancel()
 
